@@ -49,10 +49,12 @@ package requestmanager
 //@   && (forall r *inProgressRequestStatus :: r.terminalError == old(r.terminalError) && r.state == old(r.state))
 //@ pred distinctIDs(rs []gsmsg.GraphSyncResponse) := forall j int, k int :: 0 <= j && j < k && k < len(rs) ==> rs[j].requestID != rs[k].requestID
 
+//@ -- C25: messages sent from the request manager reserve no response memory, so sending never waits on a peer's allowance
 //@ func RequestManager.SendRequest
 //@   lenient
 //@   safety off
 //@   modifies alloc
+//@   callsite PeerHandler.AllocateAndBuildMessage: assert $blkSize == 0 && $p == p
 
 //@ -- C04: terminal error delivered (if any) before the channels are closed; each channel closed exactly once;
 //@ -- the entry is removed, so a second termination of the same request is impossible
